@@ -4,7 +4,7 @@ and archives it under /verif/seeded/<id>/<mut>/.   usage: tools/confirm_seeded.p
 import json, os, shutil, subprocess, sys, concurrent.futures as cf
 V = os.path.dirname(os.path.dirname(os.path.abspath(__file__)))
 LIB_DEMOS = {"": {("C12", "mutA"), ("C12", "mutB"), ("C19", "mutB")}, "r2": {("C12", "mutA"), ("C11", "mutB")},
-             "r3": {("2", "mutB"), ("6", "mutB"), ("9", "mutB")}, "r4": {("10", "mutA")}, "r5": set()}[os.environ.get("SEEDED_ROUND", "")]        # demo takes the checkout path, not the binary
+             "r3": {("2", "mutB"), ("6", "mutB"), ("9", "mutB")}, "r4": {("10", "mutA")}, "r5": set(), "r6": set()}[os.environ.get("SEEDED_ROUND", "")]        # demo takes the checkout path, not the binary
 
 def sh(cmd, cwd=None, timeout=1800, env=None):
     p = subprocess.run(cmd, cwd=cwd, shell=isinstance(cmd, str), stdout=subprocess.PIPE, stderr=subprocess.STDOUT, text=True, timeout=timeout, env=env)
@@ -13,10 +13,10 @@ def sh(cmd, cwd=None, timeout=1800, env=None):
 ROUND = os.environ.get("SEEDED_ROUND", "")          # "" = first round (/tmp/xcp-wt-*), "r2" = second round (/tmp/xcp-r2-*)
 
 def GROUP(pid):
-    return {"r3": "r3-file%s", "r4": "r4-theme%s", "r5": "r5-area%s"}.get(ROUND, "%s") % pid
+    return {"r3": "r3-file%s", "r4": "r4-theme%s", "r5": "r5-area%s", "r6": "r6-%s"}.get(ROUND, "%s") % pid
 
 def confirm(pid, mut):
-    src = {"r2": "/tmp/xcp-r2-%s/_out", "r3": "/tmp/xcp-r3-%s/_out", "r4": "/tmp/xcp-r4-%s/_out", "r5": "/tmp/xcp-r5-%s/_out"}.get(ROUND, "/tmp/xcp-wt-%s/_out") % pid
+    src = {"r2": "/tmp/xcp-r2-%s/_out", "r3": "/tmp/xcp-r3-%s/_out", "r4": "/tmp/xcp-r4-%s/_out", "r5": "/tmp/xcp-r5-%s/_out", "r6": "/tmp/xcp-r6-%s/_out"}.get(ROUND, "/tmp/xcp-wt-%s/_out") % pid
     diff = os.path.join(src, mut + ".diff"); demo = os.path.join(src, mut + "_demo.sh")
     if not (os.path.exists(diff) and os.path.exists(demo)):
         return pid, mut, {"status": "absent"}
